@@ -17,7 +17,7 @@ import random
 
 from simkit.driver import Check, base_result
 from ref import codec as C
-from checks.worlda import (WorldA, bystander_for, bystander_cost, draw_knobs, draw_sched, draw_func_stalls, install_func_stalls, NODE_HOST, NODE_REALM,
+from checks.worlda import (WorldA, draw_clock_jumps, schedule_clock_jumps, bystander_for, bystander_cost, draw_knobs, draw_sched, draw_func_stalls, install_func_stalls, NODE_HOST, NODE_REALM,
                            PEER_HOST, PEER_REALM)
 
 APP_ID = 16777251
@@ -68,7 +68,7 @@ class C08(Check):
         # a connect that never completes is spun on by test_connection(): bound the simulated kernel's
         # connect timeout by what the spin costs in steps at this run's CPU quantum
         ctimeout = max(0.02, min(0.4, 300000 * sched["quantum"]))
-        return {"mode": mode, "point": point, "cause": cause, "bystander": bystander_for(index),
+        return self._later_additions(rng, {"mode": mode, "point": point, "cause": cause, "bystander": bystander_for(index),
                 "cause_delay": rng.choice([0.0, 0.0, 0.0003, 0.002, 0.011, 0.05, 0.3]),
                 # anchored placement (peer-side causes): fire the cause when a library thread
                 # has executed exactly k more steps after the point was reached; in the
@@ -95,7 +95,22 @@ class C08(Check):
                         "p_partial_write": rng.choice([0.0, 0.0, 0.5]),
                         "p_one_byte_write": rng.choice([0.0, 0.0, 0.5]),
                         "personality": rng.choice(["linux", "linux", "linux", "windows"]) if point == "connecting" else "linux"},
-                "restart": True, "watchdog": 30, "horizon": 90.0}
+                "restart": True, "watchdog": 30, "horizon": 90.0})
+
+    @staticmethod
+    def _later_additions(rng, scn):
+        # later additions draw from a generator of their own (the stream above stays what it was)
+        rng2 = random.Random(rng.getrandbits(48))
+        # clock fault: the wall clock is stepped while the connection is going down
+        scn["clock_jumps"] = draw_clock_jumps(rng2, span=rng2.choice([0.005, 0.05, 0.3]), p=0.25)
+        # the peer keeps ITS side of the connection up after the DPR/DPA exchange and leaves the closing
+        # to the node (which lingers for SLEEP_TIMER and then closes by itself)
+        scn["peer_lingers"] = rng2.random() < 0.4
+        if scn["peer_lingers"] and scn["cause"] in ("local_close", "peer_dpr") and rng2.random() < 0.6:
+            # ... and the clock is stepped while the node lingers
+            scn["clock_jumps"] = [{"t": 0.002 + rng2.random() * 0.8 * scn["knobs"].get("SLEEP_TIMER", 0.3),
+                                   "delta": rng2.choice([-3600.0, -30.0, 45.0, 3600.0])}]
+        return scn
 
     def shrink(self, scn):
         if scn.get("eager_restart"):
@@ -138,6 +153,9 @@ class C08(Check):
             peerb["close_on_dpa_rcv"] = True
         if cause == "local_close_cross_cea":
             peerb["answer_dpr"] = True
+        if scn.get("peer_lingers") and cause in ("local_close", "peer_dpr", "local_close_cross_cea") and point != "closing":
+            peerb["close_after_dpa"] = False
+            peerb["close_on_dpa_rcv"] = False
         scn["peer"] = peerb
         if point == "accepted_no_cer":
             scn["auto_peer_cer"] = False
@@ -303,6 +321,7 @@ class C08(Check):
                 sim.wait_until(lambda: fl2["t1"] is not None, 1.0, poll=0.0002)
                 sim.sleep(3 * tick)
             # ---- apply the cause ---------------------------------------------
+            schedule_clock_jumps(sim, scn.get("clock_jumps"))
             st["cause_applied_at"] = sim.now
             st["state_at_cause"] = w.state()
             if anchored is not None:
